@@ -296,11 +296,9 @@ func wire(o *hx.Opts, rep *hx.Report, rng *hx.Rng) {
 		sort.Strings(got)
 		// subscribed names and the implied (\Noselect) parents of subscribed names, all matched against reference + pattern
 		// (RFC 3501 6.3.9: the \Noselect parents are for patterns with %; a * reaches the subscribed children themselves)
-		cand := subs
-		if strings.Contains(p, "%") {
-			cand = shown
-		}
-		ops = append(ops, "filter "+hx.H(r)+" "+hx.H(p)+" "+hx.HList(cand))
+		// the model's LSUB (Model/Lsub.shown: FilterMailboxes over the subscriptions plus the implied parents of Props.C18.lsub_implied_exact)
+		_ = shown
+		ops = append(ops, "lsub "+hx.H(r)+" "+hx.H(p)+" "+hx.HList(subs))
 		impl = append(impl, "set:"+strings.Join(got, ","))
 		rep.Case("LSUB "+r+" "+p, true)
 		rep.Hit("wire-LSUB")
